@@ -139,8 +139,14 @@ def _c20_run(tier, seed, only=None, which=None):
                 samples.append({"case": case, "result": what})
     for _ in range((200 if tier == "quick" else 4000) if which == "<random>" else 0):
         data = bytes(rng.getrandbits(8) for _ in range(rng.choice((0, 1, 3, 16, 64, 300))))
-        if rng.random() < 0.3:
+        r = rng.random()
+        if r < 0.3:
             data = rng.choice((b"\x7fELF", b"MZ", b"\xfe\xed\xfa\xce", b"\xcf\xfa\xed\xfe", b":10", b"S1", b"\x4c\x01")) + data
+        elif r < 0.45:
+            # text shaped like a record file: a start character, then hexadecimal digits (any of them, also in the type position)
+            hexd = b"0123456789ABCDEFabcdef"
+            body = bytes(rng.choice(hexd) for _ in range(rng.choice((1, 2, 3, 7, 8, 10, 21))))
+            data = rng.choice((b"S", b":", b"S", b":")) + body + rng.choice((b"", b"\n", b"\r\n", b"\n\n")) + (data if rng.random() < 0.3 else b"")
         st, what = identify(data)
         n += 1
         if st != "ok" or what not in KNOWN_CLASSES:
